@@ -24,3 +24,40 @@ void *__new_array(__CPROVER_size_t count, __CPROVER_size_t size)
 void __delete(void *ptr) { free(ptr); }
 void __delete_array(void *ptr) { free(ptr); }
 
+
+#ifdef VP_MEMLOOPS
+/* (opt-in) Byte-loop definitions of the mem* functions.  cbmc's built-in models copy through an array of symbolic
+ * size, which made every unit that copies a byte string of symbolic length explode (13M variables for
+ * P11Attribute::retrieve); an explicit loop is closed by unwinding up to the unit's stated byte bound, with
+ * unwinding assertions on (a longer copy than the bound is INCONCLUSIVE, never silently cut). */
+void *memcpy(void *dst, const void *src, __CPROVER_size_t n)
+{
+  for (__CPROVER_size_t i = 0; i < n; i++) ((unsigned char *)dst)[i] = ((const unsigned char *)src)[i];
+  return dst;
+}
+
+void *memmove(void *dst, const void *src, __CPROVER_size_t n)
+{
+  if ((const unsigned char *)src < (unsigned char *)dst && __CPROVER_same_object(dst, src))
+    for (__CPROVER_size_t i = n; i > 0; i--) ((unsigned char *)dst)[i - 1] = ((const unsigned char *)src)[i - 1];
+  else
+    for (__CPROVER_size_t i = 0; i < n; i++) ((unsigned char *)dst)[i] = ((const unsigned char *)src)[i];
+  return dst;
+}
+
+void *memset(void *s, int c, __CPROVER_size_t n)
+{
+  for (__CPROVER_size_t i = 0; i < n; i++) ((unsigned char *)s)[i] = (unsigned char)c;
+  return s;
+}
+
+int memcmp(const void *a, const void *b, __CPROVER_size_t n)
+{
+  for (__CPROVER_size_t i = 0; i < n; i++)
+  {
+    unsigned char x = ((const unsigned char *)a)[i], y = ((const unsigned char *)b)[i];
+    if (x != y) return x < y ? -1 : 1;
+  }
+  return 0;
+}
+#endif
